@@ -337,11 +337,15 @@ class LogCheck(Check):
         yield from mid_threshold_cases()
         if tier == "quick":
             yield from quick_deterministic()
+            # every 3rd statement of the complete single-statement space (3 is coprime to the inner loop sizes 40, 17, 2, 2, 6)
+            for n, c in enumerate(single_statement_space()):
+                if n % 3 == 1:
+                    yield c, "stmt-stride3"
             nprog, nseq = 6000, 3000
         else:
             for c in single_statement_space():
                 yield c, "stmt-exhaustive"
-            nprog, nseq = 60000, 30000
+            nprog, nseq = 200000, 100000
         for _ in range(nprog):
             yield rand_program(rng), "program-rand"
         for _ in range(nseq):
@@ -357,7 +361,7 @@ class LogCheck(Check):
     def signature(self, case, mobs, iobs):
         mn, ops = parse_case(case)
         kinds = "".join(sorted(set(o[0] for o in ops)))
-        ev = iobs.split()
+        ev = iobs.split()[1:]
         return (mn, kinds, min(len(ops), 6), min(sum(e[0] == "C" for e in ev), 3), min(sum(e[0] == "F" for e in ev), 3))
 
     def shrink(self, case):
